@@ -24,7 +24,10 @@ def validate(path_or_bytes):
     for n in names:
         if n.endswith('.xml') or n.endswith('.rels') or n.endswith('.vml'):
             try: trees[n]=ET.fromstring(z.read(n))
-            except ET.ParseError as e: bad('ill-formed', '%s: %s'%(n,e))
+            except ET.ParseError as e:
+                # VML is a legacy format that producers (Excel included) do not keep XML-clean (<br> in text boxes);
+                # the property speaks of the package's XML parts, so an ill-formed .vml is not flagged
+                if not n.endswith('.vml'): bad('ill-formed', '%s: %s'%(n,e))
     # padded text must carry xml:space="preserve" (readers that honour the XML default would strip it)
     XS='{http://www.w3.org/XML/1998/namespace}space'
     for n,t in trees.items():
